@@ -77,8 +77,8 @@ CHECKS = {
         note="PARTIAL by nature: scikit-learn's numerical behaviour is outside any Lean model; 'equal state => identical predictions' is a contract exercised on the zoo. Trusted: Lean kernel, comparator, family predicates.",
         design="6/C07"),
     "C12": dict(
-        technique="Lean 4 proof (member/reference bookkeeping: refs = members, no duplicate member, for every emission sequence) + flow facts on dump + exhaustive sink x compression matrix on the implementation",
-        text="refs_eq_members for all sequences of member writes / re-references; flow_facts: every *_get_state writes the header fields, get_state adds the id, root carries protocol+version, member names are flat, _save precedes any sink write and only fills its buffer; archives of zoo and generated objects are checked for zip validity, schema fields, refs<->members, flat names, and equality across 4 sinks x 7 compression settings.",
+        technique="Lean 4 proof (member/reference bookkeeping: refs = members, no duplicate member, for every emission sequence; sink independence on the dump/dumps statement skeletons regenerated from the source by a translator and interpreted over a file-system model) + flow facts on dump + traced real dumps compared with the model + exhaustive sink x compression matrix on the implementation",
+        text="refs_eq_members for all sequences of member writes / re-references; flow_facts: every *_get_state writes the header fields, get_state adds the id, root carries protocol+version, member names are flat, _save precedes any sink write and only fills its buffer; archives of zoo and generated objects are checked for zip validity, schema fields, refs<->members, flat names, and equality across 7 sinks x 12 compression settings. sink_independent (with path_sink_gets_buffer / file_sink_gets_buffer / dumps_returns_buffer): for every dumpable value of the grammar, file-system state, working directory and path form, a path sink, a fresh file object and the value of dumps receive the same byte string, the path sink changes no other path and creates no directory, the file-object sink and dumps touch no file; skeleton_dump/skeleton_dumps check by rfl that the programs are the translation of the current source; the real dump is traced in forked children (9 sink forms) and its file operations, changed paths and file-object advance are compared with the model run on the same state.",
         note="Trusted: Lean kernel; flow-fact AST patterns; zipfile codec as a contract.",
         design="6/C12"),
     "C16": dict(
